@@ -1,0 +1,158 @@
+//go:build verif
+
+package skiplist
+
+import (
+	"container/list"
+	"fmt"
+)
+
+// VerifCheckStructure walks the whole skip list and returns a description of every violated
+// structural invariant (empty = consistent). Only compiled with the build tag verif.
+//
+// Invariants: level bookkeeping (1 <= level <= maxLevel, header has no successor at or above level,
+// the top level is non-empty unless level == 1), level-0 order (scores never increase), prev pointers
+// (first node has none, every other node points at its level-0 predecessor), tail (last level-0 node,
+// nil when empty), count (number of level-0 nodes), and every level i is exactly the sub-sequence of
+// level-0 nodes whose tower is higher than i.
+func (sl *SkipList) VerifCheckStructure() []string {
+	var bad []string
+	add := func(format string, a ...interface{}) {
+		if len(bad) < 20 {
+			bad = append(bad, fmt.Sprintf(format, a...))
+		}
+	}
+	if sl.header == nil {
+		return []string{"header is nil"}
+	}
+	if len(sl.header.next) != maxLevel {
+		add("header tower height %d != %d", len(sl.header.next), maxLevel)
+		return bad
+	}
+	if sl.header.prev != nil {
+		add("header has a prev pointer")
+	}
+	if sl.level < 1 || sl.level > maxLevel {
+		add("level %d out of [1,%d]", sl.level, maxLevel)
+		return bad
+	}
+	for i := sl.level; i < maxLevel; i++ {
+		if sl.header.next[i] != nil {
+			add("header.next[%d] set although level is %d", i, sl.level)
+		}
+	}
+	if sl.level > 1 && sl.header.next[sl.level-1] == nil {
+		add("top level %d is empty", sl.level)
+	}
+	// level 0
+	var nodes []*skipListNode
+	var prev *skipListNode
+	for e := sl.header.next[0]; e != nil; e = e.next[0] {
+		i := len(nodes)
+		if i > sl.count {
+			add("more than count=%d nodes reachable at level 0 (count wrong or cycle)", sl.count)
+			return bad
+		}
+		nodes = append(nodes, e)
+		if e.Value == nil {
+			add("node %d has a nil value", i)
+			return bad
+		}
+		if len(e.next) < 1 || len(e.next) > maxLevel {
+			add("node %d tower height %d", i, len(e.next))
+			return bad
+		}
+		if len(e.next) > sl.level {
+			add("node %d tower height %d above list level %d", i, len(e.next), sl.level)
+		}
+		if e.prev != prev {
+			add("node %d (score %d): prev pointer does not point at its level-0 predecessor", i, e.Value.Score)
+		}
+		if prev != nil && prev.Value.Compare(e.Value) > 0 {
+			add("level-0 order broken at node %d: score %d follows %d", i, e.Value.Score, prev.Value.Score)
+		}
+		prev = e
+	}
+	if len(nodes) != sl.count {
+		add("count %d but %d nodes at level 0", sl.count, len(nodes))
+	}
+	if sl.tail != prev {
+		add("tail does not point at the last level-0 node")
+	}
+	// upper levels: level i must link exactly the level-0 nodes with a tower higher than i, in level-0 order
+	for i := 1; i < sl.level; i++ {
+		e := sl.header.next[i]
+		for k, n := range nodes {
+			if len(n.next) <= i {
+				continue
+			}
+			if e != n {
+				add("level %d: node %d (tower %d) is not the next linked element", i, k, len(n.next))
+				return bad
+			}
+			e = e.next[i]
+		}
+		if e != nil {
+			add("level %d links a node that is not a level-0 node with a tower higher than %d", i, i)
+		}
+	}
+	return bad
+}
+
+// VerifCheckStructure checks the skip list plus the queue's own bookkeeping: one non-empty FIFO bucket per
+// score (strictly descending), every bucket member carries the bucket's score, the hash index maps exactly the
+// bucket members (by hash), and the byte counter equals the sum of the members' sizes.
+func (cache *Queue) VerifCheckStructure() []string {
+	bad := cache.txList.VerifCheckStructure()
+	if len(bad) > 0 {
+		return bad
+	}
+	add := func(format string, a ...interface{}) {
+		if len(bad) < 20 {
+			bad = append(bad, fmt.Sprintf(format, a...))
+		}
+	}
+	members := 0
+	var bytes int64
+	var last *SkipValue
+	for e := cache.txList.header.next[0]; e != nil && members <= len(cache.txMap)+cache.txList.count+1; e = e.next[0] {
+		if e.Value == nil {
+			break
+		}
+		if last != nil && last.Score <= e.Value.Score {
+			add("bucket score %d follows %d (must strictly descend)", e.Value.Score, last.Score)
+		}
+		last = e.Value
+		l, ok := e.Value.Value.(*list.List)
+		if !ok || l == nil {
+			add("bucket %d holds no list", e.Value.Score)
+			continue
+		}
+		if l.Len() == 0 {
+			add("bucket %d is empty", e.Value.Score)
+		}
+		for it := l.Front(); it != nil; it = it.Next() {
+			s, ok := it.Value.(Scorer)
+			if !ok {
+				add("bucket %d holds a non-Scorer", e.Value.Score)
+				continue
+			}
+			if s.GetScore() != e.Value.Score {
+				add("item with score %d sits in bucket %d", s.GetScore(), e.Value.Score)
+			}
+			members++
+			bytes += s.ByteSize()
+			if idx, ok := cache.txMap[string(s.Hash())]; !ok || idx != it {
+				add("bucket %d member %x is not what the hash index points at", e.Value.Score, s.Hash())
+			}
+		}
+	}
+	// every member is what the index holds under its hash, so equal sizes make the index exactly the members
+	if members != len(cache.txMap) {
+		add("hash index has %d entries, buckets hold %d items", len(cache.txMap), members)
+	}
+	if bytes != cache.cacheBytes {
+		add("byte counter %d, members sum to %d", cache.cacheBytes, bytes)
+	}
+	return bad
+}
